@@ -407,6 +407,24 @@ func TestC17_Enveloped(t *testing.T) {
 		if err == nil && alg == gx.EncryptionAlgorithmAES128GCM {
 			t.Fatalf("AES-GCM content 'decrypted' without error under a wrong key")
 		}
+		if !useRSA {
+			// the SM2 unwrap itself fails under a foreign key (the hash C3 does not match): no content key, no content - not
+			// even garbage that happens to end in a valid DES padding. A dozen further foreign keys per envelope.
+			if err == nil {
+				t.Fatalf("a foreign SM2 key 'opened' the envelope without error (%d bytes of content)", len(out))
+			}
+			for j := int64(0); j < 12; j++ {
+				fd := new(big.Int).Add(big.NewInt(777000+j), new(big.Int).Lsh(big.NewInt(int64(len(content))+j+1), 100))
+				fk := sm2x.Priv(gen.Key{D: fd, Pub: cv.BaseMul(fd)})
+				o2, e2, pn2 := dec(env, certs[0], fk)
+				if pn2 != nil {
+					t.Fatalf("decrypt with a foreign key panicked: %v", pn2.Val)
+				}
+				if e2 == nil {
+					t.Fatalf("a foreign SM2 key 'opened' the envelope without error (%d bytes, equal to the content: %v; alg %d, mode %d)", len(o2), bytes.Equal(o2, content), alg, mode)
+				}
+			}
+		}
 		cl = append(cl, "wrong_key")
 		// the hash C3 inside a recipient's wrapped content key is part of the SM2 ciphertext's integrity: one bit of it
 		// changed and that recipient must be refused (the others are not affected)
